@@ -125,6 +125,30 @@ def d1_slots(facts, rep):
     rep.floor('D1', 8, 'slot claims and pairing')
 
 
+def live_subtree(fn, s):
+    """sub-expressions that are evaluated: of `c ? a : b` with a compile-time constant c (a template parameter in an
+    instantiation) only the selected branch"""
+    out = set()
+    work = [s]
+    while work:
+        x = work.pop()
+        if x in out or x < 0:
+            continue
+        out.add(x)
+        n = fn.nodes[x]
+        if n.get('k') == 'cond' and fn.cv(n['c']) is not None:
+            work.append(n['l'] if fn.cv(n['c']) else n['r'])
+            continue
+        for k in ('sub', 'l', 'r', 'c', 'base', 'obj', 'idx', 'init'):
+            if isinstance(n.get(k), int):
+                work.append(n[k])
+        for k in ('a', 'pl'):
+            for y in n.get(k, []) or []:
+                if isinstance(y, int):
+                    work.append(y)
+    return out
+
+
 def d2_reserved(facts, rep):
     found = 0
     for fn in facts.get(R1 + 'arena::occupy_free_slot'):
@@ -140,12 +164,26 @@ def d2_reserved(facts, rep):
                 rep.ob('D2', 'K4', fn, 'a worker searches for a slot only from my_num_reserved_slots upwards', ok,
                        'occupy_free_slot<as_worker=true> scans from %s: a worker can sit in a slot reserved for external threads' %
                        (fn.path(a[1]) if len(a) > 1 else '?'), ln=node['ln'], key_extra=str(node['ln']))
+        else:
+            # An arena with reserved slots has at least two slots (num_arena_slots: max(2, n)); for a one-slot arena the second
+            # slot exists only for the mandatory-concurrency worker.  An external thread therefore searches only below the
+            # arena's concurrency: the upper bound of every range it scans is made of my_num_reserved_slots / my_max_num_workers,
+            # never the raw slot count my_num_slots.
+            for pos, s, node, d in cs:
+                a = node.get('a', [])
+                names = set(fn.nodes[x].get('n') for x in live_subtree(fn, a[2]) if fn.nodes[x].get('k') == 'member') if len(a) >= 3 else set()
+                ok = bool(names) and names <= {'my_num_reserved_slots', 'my_max_num_workers'}
+                rng = 'reserved range' if len(a) >= 3 and fn.cv(a[1]) == 0 else 'non-reserved range'
+                rep.ob('D2', 'K10', fn, 'an external thread searches for a slot only below the arena\'s concurrency (%s)' % rng, ok,
+                       'occupy_free_slot<as_worker=false> scans up to %s: in task_arena(1) a second external thread takes the slot kept for the '
+                       'mandatory worker: two threads inside an arena of concurrency 1, one with current_thread_index() == max_concurrency()'
+                       % (fn.path(a[2]) if len(a) > 2 else '?'), ln=node['ln'], key_extra='ext' + rng)
         au = calls_named(fn, ('atomic_update',))
         ok = bool(au) and all(last_member(fn, c[2]['a'][0]) == 'my_limit' and 'less' in fn.path(c[2]['a'][2]) for c in au if len(c[2].get('a', [])) >= 3)
         rep.ob('D2', 'K1', fn, 'my_limit is raised monotonically (atomic_update with less)', ok, 'my_limit update changed', key_extra=fn.q[-12:])
     if not found:
         raise AnalysisBroken('occupy_free_slot<true> not instantiated')
-    rep.floor('D2', 2, 'reserved slots')
+    rep.floor('D2', 4, 'reserved slots')
 
 
 def d3_observers(facts, rep):
@@ -295,6 +333,27 @@ def d5_budget(facts, rep):
         ok = len(rets) == 1 and rets[0].get('k') == 'binop' and rets[0]['op'] == '<' and fn.n(fn.strip(rets[0]['l'])).get('param') == 0 and \
             fn.n(fn.strip(rets[0]['r'])).get('param') == 1
         rep.ob('D5', 'K10', fn, 'of several max_allowed_parallelism controls the smallest wins', ok, 'preference is not a < b')
+    # when a control is destroyed the most restrictive REMAINING one becomes active: the list is ordered by ascending value
+    # (comparator: lhs->my_value < rhs->my_value first) and destroy() takes its first element
+    for fn in facts.get(R1 + 'global_control_impl::destroy'):
+        src = []
+        for pos, sx, l, r in assignments(fn):
+            if fn.n(fn.strip(l)).get('k') == 'var' and any(fn.nodes[x].get('k') == 'member' and fn.nodes[x].get('n') == 'my_value' for x in fn.subtree(r)):
+                src += [(fn.callee(x) or {}).get('n') for x in fn.subtree(r) if fn.nodes[x].get('k') == 'call' and
+                        (fn.callee(x) or {}).get('n') in ('begin', 'rbegin', 'end', 'rend', 'cbegin', 'crbegin', 'front', 'back')]
+        rep.ob('D5', 'K10', fn, 'after a control is destroyed the first (smallest) remaining value becomes active', bool(src) and all(x in ('begin', 'cbegin', 'front') for x in src),
+               'the new active value is taken from %s of the value-ordered list: with several live max_allowed_parallelism controls the '
+               'least restrictive one is applied and more than L-1 workers run' % src)
+    for fn in facts.get(R1 + 'control_storage_comparator::operator()'):
+        rets = [fn.n(fn.strip(nd.get('sub', -1))) for p, s, nd in fn.stmt_elems(('return',))]
+        asc = False
+        for rn in rets:
+            for x in fn.subtree(rn.get('s', -1)) if 's' in rn else []:
+                nd = fn.nodes[x]
+                if nd.get('k') == 'binop' and nd['op'] == '<' and last_member(fn, nd['l']) == 'my_value' and last_member(fn, nd['r']) == 'my_value':
+                    lroot, rroot = fn.n(root_of(fn, nd['l'])), fn.n(root_of(fn, nd['r']))
+                    asc = lroot.get('param') == 0 and rroot.get('param') == 1
+        rep.ob('D5', 'K10', fn, 'the control list is ordered by ascending value', asc, 'comparator no longer orders lhs->my_value < rhs->my_value')
     for fn in facts.get(R1 + 'allowed_parallelism_control::apply_active'):
         cs = calls_named(fn, ('set_active_num_workers',))
         ok = bool(cs) and all(fn.n(fn.strip(c[2]['a'][0])).get('k') == 'binop' and fn.n(fn.strip(c[2]['a'][0]))['op'] == '-' and
